@@ -1,5 +1,6 @@
 (* C08 — Decompressor calls that fail leave it unchanged; call protocol is enforced. *)
-From QCo.Lemmas Require Import Tactics ReaderL.
+From QCo.Lemmas Require Import Tactics ReaderL FileL SplitL.
+From QCo.Model Require Import Writer.
 From QCo.Model Require Import Base Consts DType Codec Reader.
 Open Scope N_scope.
 
@@ -40,3 +41,17 @@ Proof. exact after_footer_refused. Qed.
 Theorem C08_write_never_fails : forall d st bs,
   r_do d st (RWrite bs) = (mkR (r_bytes st ++ bs) (r_bit st) (r_flags st) (r_cbd st) (r_term st), ROUnit).
 Proof. exact write_never_fails. Qed.
+
+(* once the missing bytes arrive the same call succeeds: whole-file decompression of any strict
+   prefix of a valid file fails with InsufficientData leaving the decompressor unchanged, and
+   after writing the remaining bytes the same call returns all the numbers *)
+Theorem C08_retry : forall d order gcds chunks bytes L,
+  order <= 7 ->
+  Forall (chunk_ok d (writer_flags order gcds)) chunks ->
+  file_bytes d (writer_flags order gcds) chunks = Ok bytes ->
+  (L < length bytes)%nat ->
+  let st := fresh (firstn L bytes) in
+  r_do d st RSimple = (st, ROErr InsufficientData) /\
+  exists st', r_do d (fst (r_do d st (RWrite (skipn L bytes)))) RSimple
+              = (st', RONums (concat (map fst chunks))).
+Proof. exact retry_simple. Qed.
